@@ -635,6 +635,22 @@ func run(c Sx) (res Result) {
 		}
 		for k > 0 && !time.Now().After(base.Add(time.Duration(k))) {
 		}
+		// price-heap normalisation (mirrored in coq/Run/C41.v): when truncatePending may have
+		// processed several offenders of equal length, the identity of the stale heap entries
+		// depends on Go's map iteration order; rebuild the heaps so later ops do not.
+		nAS, npend := 0, 0
+		for i := 0; i < r.naccts; i++ {
+			n := len(txsOf(d.Pending[addrs[i]]))
+			npend += n
+			if uint64(n) >= r.cfg.AccountSlots {
+				nAS++
+			}
+		}
+		if d.Stales != 0 && nAS >= 2 && uint64(npend+r.naccts) > r.cfg.GlobalSlots {
+			r.pool.VerifReheap()
+			d = r.pool.VerifDump()
+			r.tags["reheap_norm"] = true
+		}
 		r.oracle(d, head, afterCycle)
 		r.noteEvents(pre, d)
 		obs = append(obs, L(L(errs...), r.dumpSx(d)))
@@ -732,6 +748,9 @@ func (g *gen) newTx(from int, nonce uint64) *txSpec {
 	}
 	f := uint64(r.Range(1, 40))
 	feecap := f*1000 + id
+	for g.usedCap[feecap] {
+		feecap++
+	}
 	tip := uint64(r.Range(1, int(f*1000)))
 	switch x := r.Intn(100); {
 	case x < 10:
